@@ -93,10 +93,21 @@ def run(ctx):
     vlib.validate_cases(ctx, "EmitTrace", "EmitTrace.cfg", eo, label="emit", timeout=1800, sig=esig, sigv=lambda c, rec, v: v + ":" + esig(c), rerun=None,
                         input_keys=["k", "arr", "padLen", "maxWidth", "keys"], observed_keys=["crash", "width", "values", "breaks", "maxLine", "size", "cases"],
                         nontrivial=lambda c: c["width"] > 8 or len(c["breaks"]) > 1 or len(c["cases"]) > 1)
+    # the option block itself (Options.tla): which assignments are reported (unknown, foreign to the target, re-initialised, ill-typed value or
+    # list element, each at its place) and which value every option ends up with; every block of one or two assignments over eleven
+    # representative options and an unknown one x seven value spellings x targets go / cc, compiled by the real front end
+    oc = ctx.path("options.ndjson")
+    ctx.tlc("OptionsGen", "Gen.cfg", workers=1, timeout=900, name="optionsgen", env={"VERIF_OUT": oc})
+    oo = ctx.path("options.rec.ndjson")
+    ctx.vhrun(["options-run", oc, oo], timeout=900)
+    osig = lambda c: "options:%s:%s" % (c["target"], " ".join("%s=%s" % (a["name"], a["value"]) for a in c["assigns"]))
+    vlib.validate_cases(ctx, "OptionsTrace", "OptionsTrace.cfg", oo, label="options", timeout=1800, sig=osig, sigv=lambda c, rec, v: v + ":" + osig(c), rerun=None,
+                        input_keys=["assigns", "target", "tmtext"], observed_keys=["crash", "errs", "otherErrs", "other", "hasGrammar", "final"],
+                        nontrivial=lambda c: len(c["errs"]) >= 2)
     ctx.cov["programs"] = len(results)
     ctx.cov["rule"] = ("5 base grammars x (home valuation + all single and pairwise flips of 23 boolean Go-target options)%s = %d configurations; each compiled, generated and built by the "
                        "real tool chain; TLC admits Rejected or Write+/Build-ok only. gen.ExtractGoImports: all 5944 sources of 1-3 qualified references (5 paths x 4 alias choices, with/without package clause) "
-                       "against Imports.tla; 819 arrays over the int8/int16 boundary values, 8184 table layouts and 135 keyword sets against Emit.tla. Non-trivial: accepted configurations that set at least two options." % ("" if thorough else ", all single flips and every 4th pairwise one", len(results)))
+                       "against Imports.tla; 819 arrays over the int8/int16 boundary values, 8184 table layouts and 135 keyword sets against Emit.tla; 14280 option blocks against Options.tla. Non-trivial: accepted configurations that set at least two options." % ("" if thorough else ", all single flips and every 4th pairwise one", len(results)))
     ctx.assumptions += ["'builds' is decided by go1.26 build; configurations the compiler rejects with errors are outside the quantifier",
                         "the predicted file set is limited to lexer/token/parser files",
                         "table-size thresholds: one lexer with more than 32767 DFA states, one mid-size grammar and ten lexers around the rune-map thresholds are generated and built with the home valuation"]
